@@ -34,7 +34,10 @@ TLC_SEM = threading.Semaphore(4)      # pair-validating TLC runs at a time (one 
 KS_BASE = [1, 2, 7]
 K_LONG, K_HUGE = 1000, 12000
 
-# The recorded findings of C07 (known_findings.json).  A rejected pair is attributed to one of them only when the
+# The findings of C07.  Only the zippychord reset is still open in known_findings.json; pause / os0 / kdiff / cv2 / drec
+# were repaired in /repo (743d8bc, 594c697, 345be8d, 7d8a52c, db302df) and are listed under "fixed", so a pair showing
+# one of them is a VIOLATION again - the table then only words the diagnosis (precondition + counterfactual) in the
+# replay file.  A rejected pair is attributed to one of them only when the
 # decision point shows the finding's precondition (public state read by the harness at the cut: `pre`) AND, where a
 # counterfactual exists, the same pair taken `delay` ticks later - when the pending item is out of the way - agrees.
 SIG_ZIPPY = "C07 [zippychord forced state reset after 10000 idle ticks"
